@@ -80,6 +80,16 @@ func TestVerifSrcPath(t *testing.T) {
 				if err == nil {
 					// the location the label denotes, relative to the root
 					ev2["outcome"], ev2["result"] = "ok", strings.TrimPrefix(l.Package, "//")+"/"+l.Name
+					// the label itself, and what printing and parsing it again gives
+					rec := func(x *label.Label) map[string]any {
+						return map[string]any{"kind": x.Kind, "project": x.Project, "pkg": x.Package, "name": x.Name}
+					}
+					ev2["l"] = rec(l)
+					re := map[string]any{"outcome": "error", "l": rec(&label.Label{})}
+					if l2, err := label.Parse(l.String()); err == nil {
+						re = map[string]any{"outcome": "ok", "l": rec(l2)}
+					}
+					ev2["re"] = re
 				}
 			}()
 			batch = append(batch, ev2)
